@@ -498,9 +498,9 @@ theorem addrsCur_opCcs (s : St) (ver : Nat) : AddrsCur (opCcs s ver).1 ∧ (opCc
   obtain ⟨s2, ev1⟩ := r2
   simp only at hcur hver ⊢
   split
-  · have h3 := grow_addSubConn s2
-    generalize addSubConn s2 = r3 at h3 ⊢
-    obtain ⟨s3, ok, ev2⟩ := r3
+  · have h3 := grow_enforce s2 (match s2.cfg with | some c => c.min | none => 1) (match s2.cfg with | some c => c.min | none => 1)
+    generalize enforceMinSize s2 (match s2.cfg with | some c => c.min | none => 1) (match s2.cfg with | some c => c.min | none => 1) = r3 at h3 ⊢
+    obtain ⟨s3, ev2⟩ := r3
     exact ⟨addrsCur_of_grow hcur h3, h3.1.trans hver⟩
   · exact ⟨hcur, hver⟩
 
@@ -599,6 +599,37 @@ theorem addSubConn_connects (s : St) (x : Sc) (hl : live (addSubConn s).1 x) :
     · left; left; rw [← hc.1]; exact hl
     · left; right; rw [← hc.2]; exact hl
 
+theorem enforce_connects (s : St) (min fuel : Nat) (x : Sc) (hl : live (enforceMinSize s min fuel).1 x) :
+    live s x ∨ Event.connect x ∈ (enforceMinSize s min fuel).2 := by
+  induction fuel generalizing s with
+  | zero => left; simpa [enforceMinSize] using hl
+  | succ fuel ih =>
+    unfold enforceMinSize at hl ⊢
+    split at hl
+    · rename_i hlt
+      simp only [hlt, ↓reduceIte]
+      have h3 := addSubConn_connects s x
+      generalize addSubConn s = r at hl h3 ⊢
+      obtain ⟨s1, ok, ev⟩ := r
+      cases ok with
+      | true =>
+        simp only at hl h3 ⊢
+        have h4 := ih s1
+        generalize enforceMinSize s1 min fuel = r2 at hl h4 ⊢
+        obtain ⟨s2, ev'⟩ := r2
+        simp only at hl h4 ⊢
+        rcases h4 hl with h | h
+        · rcases h3 h with h' | h'
+          · left; exact h'
+          · right; simp [h']
+        · right; simp [h]
+      | false =>
+        simp only at hl h3 ⊢
+        exact h3 hl
+    · rename_i hlt
+      simp only [hlt, ↓reduceIte]
+      left; exact hl
+
 /-- **C20** a resolver update asks every connection the balancer then holds to (re)connect -/
 theorem ccs_connects_all (s : St) (ver : Nat) (sc : Sc) (hl : live (opCcs s ver).1 sc) :
     Event.connect sc ∈ (opCcs s ver).2 := by
@@ -621,9 +652,9 @@ theorem ccs_connects_all (s : St) (ver : Nat) (sc : Sc) (hl : live (opCcs s ver)
   split
   · rename_i he
     simp only [he, ↓reduceIte] at hl
-    have h3 := addSubConn_connects s2 sc
-    generalize addSubConn s2 = r3 at hl h3 ⊢
-    obtain ⟨s3, ok, ev2⟩ := r3
+    have h3 := enforce_connects s2 (match s2.cfg with | some c => c.min | none => 1) (match s2.cfg with | some c => c.min | none => 1) sc
+    generalize enforceMinSize s2 (match s2.cfg with | some c => c.min | none => 1) (match s2.cfg with | some c => c.min | none => 1) = r3 at hl h3 ⊢
+    obtain ⟨s3, ev2⟩ := r3
     simp only at hl h3 ⊢
     rcases h3 hl with h | h
     · have := hin sc h; simp [this]
